@@ -497,6 +497,17 @@ thread_local! {
     pub static CLONE_PANIC_COUNTDOWN: std::cell::Cell<i64> = const { std::cell::Cell::new(-1) };
 }
 
+thread_local! {
+    /// Countdown consulted by [`Tracked`]'s destructor: when it reaches zero the destructor
+    /// panics (after the value has been recorded as dead and its heap block released).
+    /// Negative = never. It never fires while the thread is already unwinding.
+    pub static DROP_PANIC_COUNTDOWN: std::cell::Cell<i64> = const { std::cell::Cell::new(-1) };
+}
+
+/// Payload type of the injected destructor panic.
+#[derive(Debug)]
+pub struct InjectedDropPanic;
+
 /// Payload type of the injected clone panic.
 #[derive(Debug)]
 pub struct InjectedClonePanic;
@@ -574,6 +585,16 @@ impl Drop for Tracked {
     fn drop(&mut self) {
         if ledger::death(self.serial) {
             unsafe { ManuallyDrop::drop(&mut self.heap) }
+        }
+        let fire = DROP_PANIC_COUNTDOWN.with(|c| {
+            let v = c.get();
+            if v > 0 {
+                c.set(v - 1);
+            }
+            v == 1
+        });
+        if fire && !std::thread::panicking() {
+            std::panic::panic_any(InjectedDropPanic);
         }
     }
 }
